@@ -27,10 +27,24 @@ partial def parseType (j : Json) : GoType :=
   | "map" => .map (parseType (getD j "e" .null))
   | "struct" => .struct (parseFields (getArr j "fields"))
   | "named" => .named (getStr j "n")
+  | "def" => .defd (getStr j "n") (parseType (getD j "u" .null))
+  | "array" => .array (getNat j "len") (parseType (getD j "e" .null))
+  | "recs" => .recs (getBool j "m")
   | _ => .bool
 partial def parseFields (js : List Json) : Fields :=
-  js.map (fun f => (parseTag (getStr f "name") (getStr f "tag") (getBool f "emb") (!getBool f "unexp"), parseType (getD f "t" .null)))
+  js.map (fun f => (parseTag (getStr f "name") (getStr f "tag") (getBool f "emb") (!getBool f "unexp") (getBool f "lower")
+    (match f.getObjVal? "yaml" with | .ok (.str y) => some y | _ => none), parseType (getD f "t" .null)))
 end
+
+def parseOpts (j : Json) : Opts :=
+  let o := getD j "opts" .null
+  { all := getBool j "all" || getBool o "all", throwCycle := getBool o "throw", cust := getBool o "cust",
+    custExcl := (getArr o "excl").map asStr, custFail := (getArr o "fail").map asStr,
+    exp := getBool o "export", expTop := getBool o "top", expGenerics := getBool o "generics",
+    tng := (match o.getObjVal? "tng" with
+      | .ok (.obj m) => some { pfx := getStr (.obj m) "pfx",
+                               tbl := (getArr (.obj m) "tbl").map (fun kv => (asStr ((asArr kv).getD 0 .null), asStr ((asArr kv).getD 1 .null))) }
+      | _ => none) }
 
 def intOf (j : Json) : Int :=
   match j with
@@ -96,11 +110,14 @@ partial def jOfSch : Sch → Json
       (if props.isEmpty then [] else [("properties", Json.mkObj (props.map (fun (k, s) => (k, jOfSch s))))]) ++
       (match addl with | some a => [("additionalProperties", jOfSch a)] | none => []))
 
-partial def refNames : Sch → List String
-  | .ref n => [n]
-  | .node _ _ _ _ _ items props addl _ =>
-    (match items with | some it => refNames it | none => []) ++
-    (props.flatMap (fun p => refNames p.2)) ++ (match addl with | some a => refNames a | none => [])
+/-- the validator as built: `f.Validate(int64(value))` converts a float64 beyond ±2^63 to an int64 inside the range
+    (implementation-defined conversion), so the `int64` format never rejects; within the range it is exact
+    (`int64_format_exact_in_range`). Only reachable when a uint64 field meets the schema of another field (DupNames). -/
+partial def dropI64 : Sch → Sch
+  | .ref n => .ref n
+  | .node ty nl fmt lo hi items props addl cyc =>
+    .node ty nl (if fmt = "int64" then "" else fmt) lo hi (items.map dropI64) (props.map (fun (k, s) => (k, dropI64 s)))
+      (addl.map dropI64) cyc
 
 def dedupBy (key : α → String) (l : List α) : List α :=
   l.foldl (fun acc x => if acc.any (fun y => key y == key x) then acc else acc ++ [x]) []
@@ -112,34 +129,54 @@ def optionsFor (σ : St) : List Comps :=
     if cs.isEmpty then acc else (cs.flatMap (fun c => acc.map (fun g => (n, c) :: g))).take 32) [[]])
 
 partial def typeBranches (Δ : Decls) (all : Bool) : GoType → List String
-  | .bool => ["k.bool"] | .int k => ["k." ++ (match k with
-      | .int => "int" | .int8 => "int8" | .int16 => "int16" | .int32 => "int32" | .int64 => "int64" | .uint => "uint"
-      | .uint8 => "uint8" | .uint16 => "uint16" | .uint32 => "uint32" | .uint64 => "uint64")]
+  | .bool => ["k.bool"] | .int k => ["k." ++ kindName k]
   | .float b => [if b then "k.float32" else "k.float64"]
   | .string => [] | .bytes => ["k.bytes"] | .time => ["k.time"]
   | .ptr t => "ptr" :: typeBranches Δ all t
-  | .slice t => "k.slice" :: typeBranches Δ all t
+  | .slice t => (if isU8 t then "k.bytes.definedElem" else "k.slice") :: typeBranches Δ all t
   | .map t => "k.map" :: typeBranches Δ all t
   | .named _ => ["named"]
+  | .defd _ t => "k.defined" :: typeBranches Δ all t
+  | .array _ t => "k.array" :: typeBranches Δ all t
+  | .recs m => [if m then "k.recmap" else "k.recslice"]
   | .struct fs =>
     let cs := flat fs
     (if fs.any (fun f => f.1.embedded && !f.1.hasTag) then ["embedded"] else []) ++
-    (if cs.any (fun c => !c.tagged) then [if all then "untagged.used" else "untagged.skipped"] else []) ++
+    (if cs.any (fun c => !c.disc) then ["embedded.nonstruct"] else []) ++
+    (if cs.any (fun c => !c.enc) then ["field.gen-only"] else []) ++
+    (if cs.any (fun c => c.disc && !c.tagged) then [if all then "untagged.used" else "untagged.skipped"] else []) ++
+    (if all && cs.any (fun c => propName all c != c.name) then ["yaml.name"] else []) ++
     (if cs.any (·.omitempty) then ["omitempty"] else []) ++
     (if (gcands all fs).isEmpty then ["struct.noprops"] else []) ++
     fs.flatMap (fun f => typeBranches Δ all f.2)
 
 def uniq (l : List String) : List String := dedupBy id l
 
+def outcomeName : R → String
+  | .ok _ => "ok" | .cycle => "cycle" | .nofuel => "nofuel" | .excluded => "excluded" | .err => "err" | .diverge => "diverge"
+
+/-- the conditions on a case under which the model speaks about it: declared names distinct and non-empty, the
+    type-name generator injective on them (and away from the name of anonymous structs) -/
+def wfCase (Δ : Decls) (o : Opts) : Bool :=
+  let ns := Δ.map (·.1)
+  !ns.contains "" && !dupNames ns && !dupNames (("" :: ns).map (typeName o))
+
 def handle (j : Json) : Json :=
-  let all := getBool j "all"
+  let o := parseOpts j
+  let all := o.all
   let Δ : Decls := (getArr j "decls").map (fun d => (getStr d "name", parseFields (getArr d "fields")))
   let t := parseType (getD j "type" .null)
   let v := parseVal (getD j "value" .null)
-  let inDom := hasTypeB Δ t v
+  let inDom := hasTypeB Δ t v && wfCase Δ o
   let enc := encode Δ t v
-  let (r, σ) := genRoot Δ all 100000 t
-  let excl0 := (if heredAll quotedIn Δ t then ["HasQuoted"] else []) ++ (if heredAll dupIn Δ t then ["DupNames"] else [])
+  let (r, σ) := genRoot Δ o (enoughFuel Δ t) t    -- `gen_finite`: never `nofuel`
+  let excl0 := (if heredAll quotedIn Δ t then ["HasQuoted"] else []) ++ (if heredAll dupIn Δ t then ["DupNames"] else []) ++
+    (if hasRecs t || Δ.any (fun d => hasRecsFs d.2) then ["RecContainer"] else [])
+  let optBr := (if all then ["useAll"] else []) ++ (if o.throwCycle then ["opt.throw"] else []) ++ (if o.cust then ["opt.cust"] else []) ++
+    (if o.exp then ["opt.export"] else []) ++ (if o.exp && o.expTop then ["opt.exportTop"] else []) ++
+    (if o.exp && o.expGenerics then ["opt.exportGenerics"] else []) ++ (if o.tng.isSome then ["opt.typeNames"] else [])
+  let mayFail := o.throwCycle || o.cust
+  let specJ := fun (d : Bool) => jobj [("inDomain", Json.bool d), ("mayFail", Json.bool mayFail), ("accept", Json.bool true), ("resolves", Json.bool true)]
   match r with
   | .ok s =>
     let opts := optionsFor σ
@@ -147,16 +184,20 @@ def handle (j : Json) : Json :=
       let names := refNames s ++ Γ.flatMap (fun p => refNames p.2)
       jobj [("comps", Json.mkObj (Γ.map (fun (n, c) => (n, jOfSch c)))),
             ("resolves", Json.bool (names.all (fun n => (resolve Γ (.ref n)).isSome))),
-            ("accept", Json.bool (acceptB Γ s enc))])
+            ("accept", Json.bool (acceptB Γ s enc)),
+            ("acceptImpl", Json.bool (acceptB (Γ.map (fun (n, c) => (n, dropI64 c))) (dropI64 s) enc))])
     let nil19 := opts.any (fun Γ => nilAtCycB Γ s enc)
-    let excl := excl0 ++ (if nil19 then ["NilAtCycle"] else [])
-    let br := uniq (σ.trace ++ typeBranches Δ all t ++ Δ.flatMap (fun d => typeBranches Δ all (.struct d.2)) ++
-      (if all then ["useAll"] else []) ++ (if isPtr t then ["ptr.root"] else []) ++
-      (if opts.length > 1 then ["comp.multi"] else []) ++ (if !σ.comps.isEmpty then ["comp.export"] else []) ++ (if σ.anon then ["cycle.anon"] else []) ++ excl.map ("excl." ++ ·))
+    let excl := excl0 ++ (if nil19 then ["NilAtCycle"] else []) ++ (if danglingB σ then ["Dangling"] else []) ++
+      (if wrongCandB o σ then ["WrongComponent"] else [])
+    let br := uniq (σ.trace ++ typeBranches Δ all t ++ Δ.flatMap (fun d => typeBranches Δ all (.struct d.2)) ++ optBr ++
+      (if isPtr t then ["ptr.root"] else []) ++
+      (if opts.length > 1 then ["comp.multi"] else []) ++ (if !σ.comps.isEmpty then ["comp.registered"] else []) ++ excl.map ("excl." ++ ·))
     jobj [("model", jobj [("outcome", "ok"), ("schema", jOfSch s), ("enc", jOfJ enc), ("options", Json.arr optJ.toArray)]),
-          ("spec", jobj [("inDomain", Json.bool (inDom && (match enc with | .null => false | _ => true))), ("accept", Json.bool true), ("resolves", Json.bool true)]),
+          ("spec", specJ (inDom && (match enc with | .null => false | _ => true))),
           ("excl", jstrs excl), ("branches", jstrs br)]
-  | .cycle => jobj [("model", jobj [("outcome", "cycle")]), ("spec", jobj [("inDomain", Json.bool inDom), ("accept", Json.bool true)]), ("excl", jstrs excl0), ("branches", jstrs [])]
-  | .nofuel => jobj [("model", jobj [("outcome", "nofuel")]), ("spec", jobj [("inDomain", Json.bool inDom), ("accept", Json.bool true)]), ("excl", jstrs excl0), ("branches", jstrs ["nofuel"])]
+  | r =>
+    jobj [("model", jobj [("outcome", outcomeName r), ("enc", jOfJ enc)]),
+          ("spec", specJ (inDom && (match enc with | .null => false | _ => true))),
+          ("excl", jstrs excl0), ("branches", jstrs (uniq (["out." ++ outcomeName r] ++ optBr ++ typeBranches Δ all t)))]
 
 end KinModel.Drv.C18
